@@ -91,7 +91,9 @@ def check(x):
 
 harness("c16.apply", prop="C16", traced=(), horizon=20, params=_params(3, KWNAMES[:4]))(body)
 oracle("c16.apply")(check)
-harness("c16.apply.big", prop="C16", traced=(), horizon=20, params=_params(4, KWNAMES))(body)
+# every completion permutation is enumerated, so the number of inputs is capped at 6 (720 orders)
+harness("c16.apply.big", prop="C16", traced=(), horizon=20,
+        params=[q for q in _params(4, KWNAMES) if 1 + q["npos"] + len(q["kws"]) <= 6])(body)
 oracle("c16.apply.big")(check)
 
 
